@@ -131,7 +131,7 @@ def check_refusal_justified(chk, rule, prog, eff):
         f = prog.fn(bn)
         where = "%s:%d" % (f.file, f.line)
         for k, pa in enumerate(P.Executor(prog, eff, inline=O.static_callees(prog, eff, bn)).run(bn)):
-            sets = [e for e in pa.events if e.kind == "store" and P.ptr_key(e.args[0])[1] == cf_off and e.extra == "i8" and e.args[1] == ("c", 1)]
+            sets = [e for e in pa.events if e.kind == "store" and P.ptr_key(e.args[0])[1] == cf_off and isinstance(P.ptr_key(e.args[0])[0], tuple) and P.ptr_key(e.args[0])[0][0] == "arg" and e.extra == "i8" and e.args[1] == ("c", 1)]
             if not sets:
                 continue
             n += 1
@@ -268,7 +268,7 @@ def run(ctx, chk):
                 pr_ = pushes[0].res
                 if pa.st.known_null(pr_):
                     dec = [e for e in pa.calls("cbor_decref") if e.extra and e.extra["pointee"][0] == item]
-                    cfs = [e for e in pa.events if e.kind == "store" and P.ptr_key(e.args[0])[1] == cf_off and e.args[1] == ("c", 1)]
+                    cfs = [e for e in pa.events if e.kind == "store" and P.ptr_key(e.args[0])[1] == cf_off and isinstance(P.ptr_key(e.args[0])[0], tuple) and P.ptr_key(e.args[0])[0][0] == "arg" and e.args[1] == ("c", 1)]
                     ok = bool(dec) and bool(cfs)
                     chk.ob("C19.refusal", "%s path %d: failed push releases the item and raises creation_failed" % (fn, k), ok, where,
                            fn=fn, key="%s:refusal:%d" % (fn, k),
@@ -332,4 +332,24 @@ def run(ctx, chk):
         check_total(chk, "C19.copy-total", prog, eff, cache_, CS_)
         nt_ = SR_.zero_only_on_short_buffer(chk, "C19.serialize-total", prog, eff, CS_, ER_.public_encoders(prog))
         chk.floor("C19.serialize-total", "serializer paths", nt_, 60)
+    chk.rule("C19.insert-refusal", "the insertion routines the builder relies on refuse only when an allocation failed, an overflow guard answered "
+             "false or a definite container is full - MEMERROR is never manufactured below the builder (shared with C12.refusal-justified)")
+    from props.c12 import check_insert_refusal
+    import ownership as _Oir
+    check_insert_refusal(chk, "C19.insert-refusal", prog, eff, _Oir.PathCache(prog, eff))
+    chk.rule("C19.no-access-after-free", "on every path of every library function (unit-internal helpers and the stack module inlined) no load or "
+             "store addresses a block after it was handed to the installed free, and no block is handed to it twice (unwinding at the nesting limit does not walk through released records)")
+    from props.c06 import check_no_access_after_free
+    check_no_access_after_free(chk, "C19.no-access-after-free", prog, eff)
+    chk.rule("C19.automaton", "input nested exactly to the limit loads: every level that completes is closed and handed on, also when all levels close in one cascade (shared with C02.automaton)")
+    chk.rule("C19.record-items", "the item of every record unlinked from the decoding stack is released or handed on on that path "
+             "(shared with C06.record-items)")
+    import typestate as _tsA
+    import ownership as _OA
+    from props.c02 import check_automaton
+    from props.c06 import check_record_items
+    _H, _PA, _IFa, _xa = ctx.typestate()
+    _cacheA = _OA.PathCache(prog, eff)
+    check_automaton(chk, "C19.automaton", prog, eff, _cacheA, _tsA.CallSites(prog, eff, _cacheA, _H, _PA))
+    check_record_items(chk, "C19.record-items", prog, eff)
     chk.exhaustive = True
